@@ -8,6 +8,7 @@ package main
 import (
 	"context"
 	"crypto/sha1"
+	"crypto/tls"
 	"encoding/hex"
 	"encoding/json"
 	"flag"
@@ -24,6 +25,9 @@ import (
 
 	"github.com/valyala/fasthttp"
 	"mosn.io/api"
+	"mosn.io/mosn/pkg/mtls"
+	"mosn.io/mosn/pkg/mtls/certtool"
+	mtlstls "mosn.io/mosn/pkg/mtls/crypto/tls"
 	"mosn.io/mosn/pkg/network"
 	"mosn.io/mosn/pkg/protocol"
 	mhttp "mosn.io/mosn/pkg/protocol/http"
@@ -58,46 +62,186 @@ type addr struct{}
 func (addr) Network() string { return "tcp" }
 func (addr) String() string  { return "127.0.0.1:7" }
 
-// chunkConn is the raw connection under the real network.connection: Read returns exactly the
-// chunks the driver hands over and tells the driver when the read loop comes back for more,
-// i.e. when everything delivered so far has been processed.
+// chunkConn is the raw connection under the real network.connection (or under the real mtls wrappers):
+// Read returns exactly the chunks the driver hands over; the driver can see when the read loop waits
+// for more with everything delivered so far processed, and it can let the read deadline expire at
+// that moment (Read returns the deadline error, as a socket does after SetReadDeadline).
 type chunkConn struct {
-	ch     chan []byte
-	idle   chan struct{}
-	done   chan struct{}
-	once   sync.Once
-	rest   []byte
-	closer string
-	mu     sync.Mutex
+	mu       sync.Mutex
+	cond     *sync.Cond
+	queue    [][]byte
+	rest     []byte
+	waiting  bool
+	fire     int // deadline expirations requested
+	timeouts int // deadline errors returned
+	closed   bool
+	duplex   bool   // keep what the server writes for the peer (TLS)
+	outq     []byte // server -> peer
 }
 
 func newChunkConn() *chunkConn {
-	return &chunkConn{ch: make(chan []byte), idle: make(chan struct{}, 1<<16), done: make(chan struct{})}
+	c := &chunkConn{}
+	c.cond = sync.NewCond(&c.mu)
+	return c
 }
+
 func (c *chunkConn) Read(p []byte) (int, error) {
-	if len(c.rest) == 0 {
-		c.idle <- struct{}{}
-		select {
-		case b := <-c.ch:
-			c.rest = b
-		case <-c.done:
+	c.mu.Lock()
+	defer c.mu.Unlock()
+	for {
+		if len(c.rest) > 0 {
+			n := copy(p, c.rest)
+			c.rest = c.rest[n:]
+			c.cond.Broadcast()
+			return n, nil
+		}
+		if len(c.queue) > 0 {
+			c.rest, c.queue = c.queue[0], c.queue[1:]
+			continue
+		}
+		if c.closed {
 			return 0, io.EOF
 		}
+		if c.fire > 0 {
+			c.fire--
+			c.timeouts++
+			c.cond.Broadcast()
+			return 0, os.ErrDeadlineExceeded
+		}
+		c.waiting = true
+		c.cond.Broadcast()
+		c.cond.Wait()
+		c.waiting = false
 	}
-	n := copy(p, c.rest)
-	c.rest = c.rest[n:]
-	return n, nil
 }
-func (c *chunkConn) Write(p []byte) (int, error) { return len(p), nil }
+
+func (c *chunkConn) idleLocked() bool {
+	return c.waiting && len(c.queue) == 0 && len(c.rest) == 0 && c.fire == 0
+}
+
+// give hands one chunk to the reader.
+func (c *chunkConn) give(b []byte) {
+	c.mu.Lock()
+	c.queue = append(c.queue, append([]byte{}, b...))
+	c.cond.Broadcast()
+	c.mu.Unlock()
+}
+
+// await waits until cond() holds (evaluated under the lock). "" | connection-closed | hang
+func (c *chunkConn) await(cond func() bool) string {
+	var ms0 runtime.MemStats
+	runtime.ReadMemStats(&ms0)
+	t0 := time.Now()
+	stop := make(chan struct{})
+	defer close(stop)
+	go func() {
+		t := time.NewTicker(50 * time.Millisecond)
+		defer t.Stop()
+		for {
+			select {
+			case <-t.C:
+				c.mu.Lock()
+				c.cond.Broadcast()
+				c.mu.Unlock()
+			case <-stop:
+				return
+			}
+		}
+	}()
+	c.mu.Lock()
+	defer c.mu.Unlock()
+	for {
+		if cond() {
+			return ""
+		}
+		if c.closed {
+			return "connection-closed"
+		}
+		if time.Since(t0) > 100*time.Millisecond {
+			var ms runtime.MemStats
+			runtime.ReadMemStats(&ms)
+			if time.Since(t0) > hangAfter || (ms.HeapAlloc > ms0.HeapAlloc && (ms.HeapAlloc-ms0.HeapAlloc)>>20 > hangHeapMB) {
+				hung = true
+				return "hang"
+			}
+		}
+		c.cond.Wait()
+	}
+}
+
+func (c *chunkConn) waitIdle() string { return c.await(c.idleLocked) }
+
+// expire lets the read deadline of the waiting Read expire once and waits until the read loop waits again.
+func (c *chunkConn) expire() string {
+	c.mu.Lock()
+	c.fire++
+	t0 := c.timeouts
+	c.cond.Broadcast()
+	c.mu.Unlock()
+	return c.await(func() bool { return c.timeouts > t0 && c.idleLocked() })
+}
+
+func (c *chunkConn) Write(p []byte) (int, error) {
+	if c.duplex {
+		c.mu.Lock()
+		c.outq = append(c.outq, p...)
+		c.cond.Broadcast()
+		c.mu.Unlock()
+	}
+	return len(p), nil
+}
 func (c *chunkConn) Close() error {
-	c.once.Do(func() { close(c.done) })
+	c.mu.Lock()
+	c.closed = true
+	c.cond.Broadcast()
+	c.mu.Unlock()
 	return nil
+}
+func (c *chunkConn) isClosed() bool {
+	c.mu.Lock()
+	defer c.mu.Unlock()
+	return c.closed
 }
 func (c *chunkConn) LocalAddr() net.Addr                { return addr{} }
 func (c *chunkConn) RemoteAddr() net.Addr               { return addr{} }
 func (c *chunkConn) SetDeadline(t time.Time) error      { return nil }
 func (c *chunkConn) SetReadDeadline(t time.Time) error  { return nil }
 func (c *chunkConn) SetWriteDeadline(t time.Time) error { return nil }
+
+// peerEnd is the client's end of a duplex chunkConn (used by the TLS client): what it writes reaches the
+// server as raw chunks through onWrite, what the server wrote is what it reads.
+type peerEnd struct {
+	c       *chunkConn
+	onWrite func(p []byte)
+}
+
+func (p *peerEnd) Read(b []byte) (int, error) {
+	c := p.c
+	c.mu.Lock()
+	defer c.mu.Unlock()
+	for len(c.outq) == 0 {
+		if c.closed {
+			return 0, io.EOF
+		}
+		c.cond.Wait()
+	}
+	n := copy(b, c.outq)
+	c.outq = c.outq[n:]
+	return n, nil
+}
+func (p *peerEnd) Write(b []byte) (int, error) {
+	if p.c.isClosed() {
+		return 0, io.ErrClosedPipe
+	}
+	p.onWrite(b)
+	return len(b), nil
+}
+func (p *peerEnd) Close() error                       { return nil }
+func (p *peerEnd) LocalAddr() net.Addr                { return addr{} }
+func (p *peerEnd) RemoteAddr() net.Addr               { return addr{} }
+func (p *peerEnd) SetDeadline(t time.Time) error      { return nil }
+func (p *peerEnd) SetReadDeadline(t time.Time) error  { return nil }
+func (p *peerEnd) SetWriteDeadline(t time.Time) error { return nil }
 
 // ---------------------------------------------------------------- the stream layer's listener
 
@@ -233,11 +377,17 @@ func (f *filter) OnData(buf api.IoBuffer) api.FilterStatus {
 // ---------------------------------------------------------------- one connection
 
 type harness struct {
-	cc   *chunkConn
-	conn api.Connection
-	f    *filter
-	s    *sink
-	fed  int
+	cc        *chunkConn
+	conn      api.Connection
+	f         *filter
+	s         *sink
+	fed       int
+	transport string
+	ready     chan struct{} // the server connection exists (inspector: after the first byte)
+	peer      *peerEnd
+	cli       *tls.Conn
+	startErr  string
+	pauseMid  bool // tls: let the deadline expire inside the next record as well
 }
 
 var hung = false
@@ -262,13 +412,35 @@ func other(proto string) string {
 	return "dubbo"
 }
 
+// the TLS server side of an inspector listener: mosn's crypto/tls fork with a generated certificate
+var (
+	srvTLSOnce sync.Once
+	srvTLSCfg  *mtlstls.Config
+)
+
+func serverTLSConfig() *mtlstls.Config {
+	srvTLSOnce.Do(func() {
+		priv, err := certtool.GeneratePrivateKey("P256")
+		vh.Must(err, "tls key")
+		tmpl, err := certtool.CreateTemplate("c07", false, []string{"c07.test"})
+		vh.Must(err, "tls template")
+		ci, err := certtool.SignCertificate(tmpl, priv)
+		vh.Must(err, "tls cert")
+		cert, err := mtlstls.X509KeyPair([]byte(ci.CertPem), []byte(ci.KeyPem))
+		vh.Must(err, "tls key pair")
+		srvTLSCfg = &mtlstls.Config{Certificates: []mtlstls.Certificate{cert}}
+	})
+	return srvTLSCfg
+}
+
 // mode: "fixed" (listener configured with this one protocol: no matcher), "auto" (all registered protocols),
 // "list" (a protocol list: matchers of the listed protocols only)
-func newHarness(proto string, mode string) *harness {
+// transport: "plain" (the socket itself), "inspector" (listener in TLS inspector mode, plain-text client: the
+// first byte is peeked by mtls.Conn before the connection exists), "tls" (TLS client on the inspector listener)
+func newHarness(proto, mode, transport string) *harness {
 	ctx := baseCtx()
 	cc := newChunkConn()
-	h := &harness{cc: cc, s: &sink{notify: make(chan struct{}, 1), h1: proto == "Http1"}}
-	h.conn = network.NewServerConnection(ctx, cc, nil)
+	h := &harness{cc: cc, transport: transport, s: &sink{notify: make(chan struct{}, 1), h1: proto == "Http1"}, ready: make(chan struct{})}
 	h.f = &filter{ctx: ctx, s: h.s}
 	switch mode {
 	case "fixed":
@@ -276,36 +448,57 @@ func newHarness(proto string, mode string) *harness {
 	case "list":
 		h.f.scopes = []api.ProtocolName{api.ProtocolName(other(proto)), api.ProtocolName(proto)}
 	}
-	h.conn.FilterManager().AddReadFilter(h.f)
-	h.conn.FilterManager().InitializeReadFilters()
-	h.conn.Start(ctx)
-	<-cc.idle // read loop is up and asks for data
+	start := func(raw net.Conn) {
+		h.conn = network.NewServerConnection(ctx, raw, nil)
+		h.conn.FilterManager().AddReadFilter(h.f)
+		h.conn.FilterManager().InitializeReadFilters()
+		h.conn.Start(ctx)
+		close(h.ready)
+	}
+	if transport == "plain" {
+		start(cc)
+		cc.waitIdle() // read loop is up and asks for data
+		return h
+	}
+	// what activeListener.OnAccept + serverContextManager.Conn do for a listener in inspector mode
+	go func() {
+		mc := &mtls.Conn{Conn: cc}
+		b, err := mc.Peek()
+		if err != nil {
+			cc.Close()
+			close(h.ready)
+			return
+		}
+		if b[0] == 0x16 {
+			start(&mtls.TLSConn{Conn: mtlstls.Server(mc, serverTLSConfig().Clone())})
+		} else {
+			start(mc)
+		}
+	}()
+	if transport == "tls" {
+		cc.duplex = true
+		h.peer = &peerEnd{c: cc}
+		h.peer.onWrite = func(p []byte) { cc.give(p) }
+		h.cli = tls.Client(h.peer, &tls.Config{InsecureSkipVerify: true, ServerName: "c07.test"})
+		done := make(chan error, 1)
+		go func() { done <- h.cli.Handshake() }()
+		select {
+		case err := <-done:
+			if err != nil {
+				h.startErr = "tls-handshake-failed"
+			}
+		case <-time.After(hangAfter):
+			h.startErr = "tls-handshake-stuck"
+		}
+		if h.startErr == "" {
+			<-h.ready
+		}
+	}
+	cc.waitIdle()
 	return h
 }
 
-// waitIdle waits until the read loop asks for more data. false = closed by the code under test or hung.
-func (h *harness) waitIdle() string {
-	var ms0 runtime.MemStats
-	runtime.ReadMemStats(&ms0)
-	t0 := time.Now()
-	tick := time.NewTicker(50 * time.Millisecond)
-	defer tick.Stop()
-	for {
-		select {
-		case <-h.cc.idle:
-			return ""
-		case <-h.cc.done:
-			return "connection-closed"
-		case <-tick.C:
-			var ms runtime.MemStats
-			runtime.ReadMemStats(&ms)
-			if time.Since(t0) > hangAfter || (ms.HeapAlloc > ms0.HeapAlloc && (ms.HeapAlloc-ms0.HeapAlloc)>>20 > hangHeapMB) {
-				hung = true
-				return "hang"
-			}
-		}
-	}
-}
+func (h *harness) waitIdle() string { return h.cc.waitIdle() }
 
 func (h *harness) count() int {
 	h.s.mu.Lock()
@@ -316,16 +509,66 @@ func (h *harness) count() int {
 // feed delivers one chunk and returns when it has been processed. want = number of messages that should
 // have been handed over by then (used only to wait for the asynchronous HTTP/1 parser goroutine).
 func (h *harness) feed(chunk []byte, want int) string {
-	cp := append([]byte{}, chunk...)
-	select {
-	case h.cc.ch <- cp:
-	case <-h.cc.done:
+	if h.startErr != "" {
+		return h.startErr
+	}
+	if h.cc.isClosed() {
 		return "connection-closed"
 	}
-	h.fed += len(chunk)
-	if e := h.waitIdle(); e != "" {
-		return e
+	if h.transport == "tls" {
+		// one TLS record per chunk; every record reaches the socket in two pieces (cut inside the 5-byte
+		// record header), optionally with an expired read deadline between them
+		res := ""
+		first := true
+		h.peer.onWrite = func(p []byte) {
+			if res != "" {
+				return
+			}
+			k := 0
+			if first && len(p) > 3 {
+				k = 3
+			}
+			first = false
+			if k > 0 {
+				h.cc.give(p[:k])
+				if res = h.cc.waitIdle(); res != "" {
+					return
+				}
+				if h.pauseMid {
+					h.pauseMid = false
+					if res = h.cc.expire(); res != "" {
+						return
+					}
+				}
+			}
+			h.cc.give(p[k:])
+			res = h.cc.waitIdle()
+		}
+		if _, err := h.cli.Write(chunk); err != nil && res == "" {
+			res = "tls-client-write-failed"
+		}
+		if res != "" {
+			return res
+		}
+	} else {
+		h.cc.give(chunk)
+		if h.transport == "inspector" && h.fed == 0 {
+			select {
+			case <-h.ready:
+			case <-time.After(hangAfter):
+				return "accept-stuck"
+			}
+		}
+		if e := h.cc.waitIdle(); e != "" {
+			return e
+		}
 	}
+	h.fed += len(chunk)
+	return h.settle(want)
+}
+
+// settle waits for the asynchronous HTTP/1 parser goroutine: want = messages that should have been handed over.
+func (h *harness) settle(want int) string {
 	if h.s.h1 {
 		dl := time.After(asyncWait)
 		for h.count() < want {
@@ -335,7 +578,8 @@ func (h *harness) feed(chunk []byte, want int) string {
 			case <-dl:
 				longWaits++
 				return "wait-timeout"
-			case <-h.cc.done:
+			}
+			if h.cc.isClosed() {
 				return "connection-closed"
 			}
 		}
@@ -347,9 +591,26 @@ func (h *harness) feed(chunk []byte, want int) string {
 	return ""
 }
 
+// pause lets the read deadline expire once while the read loop waits for the peer.
+func (h *harness) pause(want int) string {
+	if h.startErr != "" {
+		return h.startErr
+	}
+	if e := h.cc.expire(); e != "" {
+		return e
+	}
+	if h.transport == "tls" {
+		h.pauseMid = true
+	}
+	return h.settle(want)
+}
+
 func (h *harness) buffered() int {
 	if h.s.h1 {
 		return -1
+	}
+	if h.conn == nil {
+		return 0
 	}
 	b := h.conn.GetReadBuffer()
 	if b == nil {
@@ -362,8 +623,14 @@ func (h *harness) close() {
 	if hung {
 		return
 	}
-	h.conn.Close(api.NoFlush, api.LocalClose)
 	h.cc.Close()
+	select {
+	case <-h.ready:
+		if h.conn != nil {
+			h.conn.Close(api.NoFlush, api.LocalClose)
+		}
+	case <-time.After(5 * time.Second):
+	}
 }
 
 // ---------------------------------------------------------------- streams of messages
@@ -435,13 +702,26 @@ var nruns, nfeeds int
 
 // play feeds r.all cut at `cuts` (ascending offsets, last = len) and records the trace. ref run: cls "whole".
 func (r *run) play(cls string, cuts []int, mode string) (aborted bool) {
+	return r.playT(cls, cuts, nil, mode, "plain")
+}
+
+// playT feeds r.all cut at `cuts` over the given transport; after the chunk ending at an offset listed in
+// `pauses` (0 = before the first chunk) the read deadline of the connection expires once.
+func (r *run) playT(cls string, cuts, pauses []int, mode, transport string) (aborted bool) {
 	if givenUp() {
 		return true
 	}
+	if pauses == nil {
+		pauses = []int{}
+	}
+	peek := 0
+	if transport == "inspector" {
+		peek = 1
+	}
 	tr.Emit(vh.Ev{"ev": "run", "proto": r.sp.Proto, "cls": cls, "lens": r.lens, "units": r.units, "mode": mode,
-		"conts": r.sp.Conts, "shapes": r.sp.Shapes, "cuts": cuts})
+		"conts": r.sp.Conts, "shapes": r.sp.Shapes, "cuts": cuts, "pauses": pauses, "transport": transport, "peek": peek})
 	nruns++
-	h := newHarness(r.sp.Proto, mode)
+	h := newHarness(r.sp.Proto, mode, transport)
 	defer h.close()
 	prev, reported := 0, 0
 	ends := make([]int, len(r.lens))
@@ -450,19 +730,12 @@ func (r *run) play(cls string, cuts []int, mode string) (aborted bool) {
 		acc += l
 		ends[i] = acc
 	}
-	for _, c := range cuts {
-		if c <= prev || c > len(r.all) {
-			continue
-		}
-		want := 0
-		for _, e := range ends {
-			if e <= c {
-				want++
-			}
-		}
-		e := h.feed(r.all[prev:c], want)
-		n := c - prev
-		prev = c
+	pauseAt := map[int]bool{}
+	for _, p := range pauses {
+		pauseAt[p] = true
+	}
+	// report emits what happened since the last event; true = the run ends here
+	report := func(ev string, n int, e string) bool {
 		h.s.mu.Lock()
 		fresh := append([]seen{}, h.s.got[reported:]...)
 		reported = len(h.s.got)
@@ -484,7 +757,11 @@ func (r *run) play(cls string, cuts []int, mode string) (aborted bool) {
 		if e == "" {
 			buffered = h.buffered()
 		}
-		tr.Emit(vh.Ev{"ev": "feed", "n": n, "got": got, "buffered": buffered})
+		if ev == "feed" {
+			tr.Emit(vh.Ev{"ev": "feed", "n": n, "got": got, "buffered": buffered})
+		} else {
+			tr.Emit(vh.Ev{"ev": "pause", "got": got, "buffered": buffered})
+		}
 		nfeeds++
 		for _, x := range errs {
 			tr.Emit(vh.Ev{"ev": "err", "what": x})
@@ -499,6 +776,35 @@ func (r *run) play(cls string, cuts []int, mode string) (aborted bool) {
 		if h.f.ssc != nil && string(h.f.proto) != r.sp.Proto {
 			tr.Emit(vh.Ev{"ev": "err", "what": "detected-" + string(h.f.proto)})
 			return true
+		}
+		return false
+	}
+	// no read deadline is armed while the inspector peeks the first byte: a pause before it is not realisable
+	if pauseAt[0] && transport == "plain" {
+		if report("pause", 0, h.pause(0)) {
+			return true
+		}
+	}
+	for _, c := range cuts {
+		if c <= prev || c > len(r.all) {
+			continue
+		}
+		want := 0
+		for _, e := range ends {
+			if e <= c {
+				want++
+			}
+		}
+		e := h.feed(r.all[prev:c], want)
+		n := c - prev
+		prev = c
+		if report("feed", n, e) {
+			return true
+		}
+		if pauseAt[c] && c < len(r.all) {
+			if report("pause", 0, h.pause(want)) {
+				return true
+			}
 		}
 	}
 	return false
@@ -558,6 +864,8 @@ type zcase struct {
 	Frames []int `json:"frames"`
 	Cuts   []int `json:"cuts"`
 	Pre    int   `json:"pre"` // model length of the connection preface (Framing.tla Preface), 0 = none
+	Pauses []int `json:"pauses"` // model offsets (bytes sent) at which the read deadline expires
+	Tmo    int   `json:"tmo"`    // 1: case of the transport/timeout model: played over every transport
 }
 
 // prefaceLen is the length of the fixed connection preface a client of this protocol sends first.
@@ -609,8 +917,15 @@ func concreteCuts(r *run, z zcase) []int {
 	for _, c := range z.Cuts {
 		out = append(out, m2c[c])
 	}
+	lastPauses = []int{}
+	for _, c := range z.Pauses {
+		lastPauses = append(lastPauses, m2c[c])
+	}
 	return out
 }
+
+// lastPauses: the pause offsets of the case concreteCuts mapped last
+var lastPauses []int
 
 var refCache = map[string]*run{}
 
@@ -721,9 +1036,19 @@ func main() {
 							}
 							continue
 						}
-						for _, mode := range []string{"fixed", "auto"} { // the same cut set for both configurations
-							if r.play("zones", concreteCuts(r, z), mode) && hung {
-								return
+						cuts := concreteCuts(r, z)
+						pauses := lastPauses
+						transports := []string{"plain"}
+						cls := "zones"
+						if z.Tmo > 0 { // the same schedule under every transport
+							transports = []string{"plain", "inspector", "tls"}
+							cls = "timeouts"
+						}
+						for _, tp := range transports {
+							for _, mode := range []string{"fixed", "auto"} { // the same cut set for both configurations
+								if r.playT(cls, cuts, pauses, mode, tp) && hung {
+									return
+								}
 							}
 						}
 					}
@@ -761,6 +1086,15 @@ func main() {
 					for _, mode := range []string{"fixed", "auto", "list"} {
 						if r.play("bytewise", one, mode) && hung {
 							return
+						}
+					}
+					// the other transports: byte by byte, the read deadline expiring after the first byte, inside the
+					// first header and between the first two messages
+					for _, tp := range []string{"plain", "inspector", "tls"} {
+						for _, mode := range []string{"fixed", "auto"} {
+							if r.playT("bytewise", one, []int{1, r.msgs[0].lenMid, r.lens[0]}, mode, tp) && hung {
+								return
+							}
 						}
 					}
 					for k := 0; k < *nrand; k++ {
